@@ -190,7 +190,8 @@ def build(sc):
 
     class Proc(PartProcessor):
         def get_work_order_duration(self, tag):
-            return self._v_dur
+            # state-dependent on purpose (Model/Floor.v wo_dur_now): longer when the machine is already shut down
+            return self._v_dur + (0 if self.is_operational() else 8 / CUR[0])
 
         def get_work_order_capacity(self, tag):
             return self._v_cap
